@@ -711,6 +711,7 @@ class Fn:
                         body = body[:pos + 1] + "\n" + spec["body_start"].rstrip("\n") + "\n" + body[pos + 1:]
                 body = body[:pos] + ins + body[pos:]
         # proof blocks at anchors
+        skipped_hints = []
         for pr in self.proofs:
             (anchor, side, text) = pr[:3]
             optional = len(pr) > 3 and pr[3] == "optional"   # a hint tied to one code shape: skipped when that shape is gone
@@ -725,6 +726,7 @@ class Fn:
                 continue
             ms = list(re.finditer(anchor, body))
             if optional and len(ms) == 0:
+                skipped_hints.append(anchor)
                 continue
             if len(ms) != 1:
                 raise Drift("%s: proof anchor /%s/ matches %d times" % (where, anchor, len(ms)))
@@ -776,6 +778,8 @@ class Fn:
             txt += "/*@ENDFN*/\n"
             unit.register_fn(fid, kind, self, [c for c in ens], props)
             unit.fns[fid]["named_asserts"] = sorted(set(re.findall(r"/\*@AS:(.*?)\*/", txt)))
+            # optional proof hints that could not be placed: a failure of this function is then undecided, not a violation
+            unit.fns[fid]["skipped_hints"] = list(skipped_hints)
             unit.fns[fid]["loop_invariants"] = sum(len(v.get("invariant", [])) + len(v.get("invariant_except_break", [])) for v in self.loops.values())
             return txt
 
